@@ -111,7 +111,7 @@ class Runner:
         self.clock = Clock(0.0)
         self.clock.__enter__()
         self.now = Z.epoch_at(zone, date, 12, 0, 0)
-        self.clock.move_to(float(self.now) + 0.25)
+        self.clock.move_to(float(self.now) + (0.75 if date.day % 2 else 0.25))  # the fraction of the current second never matters
         import time as _t
 
         if _t.strftime("%Y-%m-%d %H") != f"{date.isoformat()} 12":
@@ -124,8 +124,8 @@ class Runner:
         self.w.__exit__(None, None, None)
         self.clock.__exit__(None, None, None)
 
-    def list(self, records):
-        out, writes, rx = self.w.run_op("get_schedules", script=[Ellipsis, RP.schedules(records)])
+    def list(self, records, poke=()):
+        out, writes, rx = self.w.run_op("get_schedules", script=[Ellipsis, RP.schedules(records, poke)])
         return out
 
     def create(self, start, end, days):
@@ -192,6 +192,15 @@ def run_date(job, res):
 
         S0, E0 = base_day + 6 * 3600 + 15 * 60, base_day + 7 * 3600 + 45 * 60
         listing([], "empty")
+        # header bytes of the reply (session echo, device timestamp, reserved) never move the records
+        if date.month == 7:
+            recs2 = [RP.schedule_record(2, 0x54, S0, E0), RP.schedule_record(5, 0x00, S0 + 3600, E0 + 60)]
+            pokes = [[[off, v]] for off in range(4, 45) for v in (0xF0, 0xFE, 0xFF, 0x0A)]
+            pokes += [[[off, 0xF0], [off + 1, 0xFE]] for off in range(4, 44)] + [[[off, 0xFE], [off + 1, 0xF0]] for off in range(4, 44)]
+            for pk in pokes:
+                case = {"kind": "list", "zone": zone, "date": job["date"], "records": [r.hex() for r in recs2], "poke": pk}
+                judge_listing(res, case, zone, recs2, run.list(recs2, pk))
+                res.case(("poke", zone, job["date"], repr(pk)))
         for slot in range(256):
             listing([RP.schedule_record(slot, 0x54, S0, E0)], "id")
         for mask in [0] + list(range(2, 256, 2)):
@@ -265,7 +274,7 @@ def replay(case):
     try:
         if case["kind"] in ("list", "relist"):
             records = [bytes.fromhex(r) for r in case["records"]]
-            out = run.list(records)
+            out = run.list(records, case.get("poke") or ())
             if case["kind"] == "relist" and out[0] == "ok":
                 _disturb(out[1])
                 out = run.list(records)
